@@ -7,7 +7,7 @@ From Coq Require Import List NArith.
 From RaftLog Require Import Base.Bytes Model.Types Model.Cache Model.Core Model.Recover Model.Run.
 From RaftLog Require Import Spec.Spec Spec.Hist.
 From RaftLog Require Import Model.Sys Proofs.JournalFacts Proofs.ReadInv Proofs.ReadFacts.
-From RaftLog Require Proofs.PurgeFacts Proofs.PurgeLive Proofs.ReadSys Proofs.ReadSysFaults.
+From RaftLog Require Proofs.PurgeFacts Proofs.PurgeLive Proofs.ReadSys Proofs.ReadSysFaults Proofs.ReadRestart.
 Import ListNotations.
 
 (* Finding F2: a Raft-legal history (append three entries at term 5, flush, worker idle,
@@ -61,6 +61,55 @@ Theorem C07_reads_total_outside_known_L2 : forall cfg es z v,
   read_ok (do_dump_iter (z_core z) (z_disk z)) (sp_entries sp).
 Proof. exact ReadSysFaults.C07_reads_total_outside_known_L2_faults. Qed.
 
+(* ---- across a clean restart, under ANY cache limits of the reopening run (0 included):
+   after a history outside the known class, flushed and with the worker idle, if no live
+   entry stored in the newest chunk file lies at or below the boundary the restart installs
+   for that file ([restart_ok]: the F2 class as it shows at a restart; the boundary is the
+   [last] of the snapshot heading that file), the directory opens under any configuration and
+   the reopened store reads exactly the reference log (state, every range, snapshot
+   iteration) and satisfies the read invariant I7 again ... *)
+Theorem C07_restart_reads_total : forall cfg cfg' ops res y,
+  ops_c07 spec0 ops = true -> Forall op_wf ops ->
+  (match open_dir cfg [] with OpenOk y0 => run_ok_c07b y0 ops = true | _ => False end) ->
+  run_case cfg ops = (res, Some y) ->
+  y_queue y = [] -> k_pending (y_core y) = [] ->
+  ReadRestart.restart_ok y = true ->
+  exists y', open_dir cfg' (y_disk y) = OpenOk y' /\ observes y' (spec_ops spec0 ops) /\
+             I7 y' (spec_ops spec0 ops).
+Proof. exact ReadRestart.C07_restart_reads_total. Qed.
+
+(* ... and keeps doing so for every continuation outside the known class *)
+Theorem C07_restart_continue : forall cfg cfg' ops ops2 res y,
+  ops_c07 spec0 ops = true -> Forall op_wf ops ->
+  (match open_dir cfg [] with OpenOk y0 => run_ok_c07b y0 ops = true | _ => False end) ->
+  run_case cfg ops = (res, Some y) ->
+  y_queue y = [] -> k_pending (y_core y) = [] ->
+  ReadRestart.restart_ok y = true ->
+  exists y', open_dir cfg' (y_disk y) = OpenOk y' /\
+    forall res2 fin,
+      ops_c07 (spec_ops spec0 ops) ops2 = true -> Forall op_wf ops2 -> run_ok_c07b y' ops2 = true ->
+      run_ops y' ops2 = (res2, fin) ->
+      exists y2, fin = Some y2 /\ observes y2 (spec_ops spec0 (ops ++ ops2)) /\
+                 I7 y2 (spec_ops spec0 (ops ++ ops2)).
+Proof. exact ReadRestart.C07_restart_continue. Qed.
+
+(* F2 across a restart: a store that reads its live entry correctly becomes unable to read
+   it after a clean restart under a zero-item cache (append three entries at term 5,
+   truncate everything, append (1,0), flush, idle, reopen) *)
+Theorem C07_restart_refuted : exists cfg cfg' ops res y,
+  ops_c07 spec0 ops = true /\ Forall op_wf ops /\
+  run_case cfg ops = (res, Some y) /\ y_queue y = [] /\ k_pending (y_core y) = [] /\
+  sp_entries (spec_ops spec0 ops) = [((1, 0), [])]%N /\
+  snd (do_read (y_core y) (y_disk y) 0 1) = [RIOk (1, 0)%N []] /\
+  ReadRestart.restart_bound y = Some (5, 2)%N /\ ReadRestart.restart_ok y = false /\
+  exists y', open_dir cfg' (y_disk y) = OpenOk y' /\
+    snd (do_read (y_core y') (y_disk y') 0 1) = [RIErr KNotFound] /\
+    ~ observes y' (spec_ops spec0 ops).
+Proof. exact ReadRestart.C07_restart_refuted. Qed.
+
 Print Assumptions C07_reads_total_outside_known_L2.
 Print Assumptions C07_refuted_live.
 Print Assumptions C07_reads_total_outside_known.
+Print Assumptions C07_restart_reads_total.
+Print Assumptions C07_restart_continue.
+Print Assumptions C07_restart_refuted.
